@@ -105,7 +105,7 @@ MObj3 == ObjsOver({N1, VNull} \cup ObjsOver({N1, VNull} \cup ObjsOver({N1, VNull
 MergeUniverse == IF Tier = "quick" THEN MVals0 \cup MObj1 ELSE IF Tier = "deep" THEN MVals0 \cup MObj1 \cup MObj2 \cup MObj3 ELSE MVals0 \cup MObj1 \cup MObj2
 
 \* ---- pairs for generation ----
-PLeaf == {N1, N2, VNull, S(<<120>>)}
+PLeaf == {N1, N2, VNull, VTrue, VFalse, S(<<120>>)}
 PKeys == {KA, KAA, KSL, KTI}
 \* a nested object whose members are out of order although the smallest key comes first, the same value in key order, and a neighbour
 NestedUnsorted == {VObj(<< <<KA, VObj(<< <<KA, N1>>, <<KTI, N2>>, <<KB, N1>> >>)>>, <<KB, N2>> >>),
@@ -115,7 +115,7 @@ NestedUnsorted == {VObj(<< <<KA, VObj(<< <<KA, N1>>, <<KTI, N2>>, <<KB, N1>> >>)
 \* numbers at the tolerance boundary (equal / one step beyond), same key, top level and one level down; pairs that straddle an
 \* integer are kept apart (PatchImpl.Straddle)
 PNums == {N_one, N_one_eps, N_one_2eps, N_one_3eps, N_one75, N_one75_2, N_one75_3, N_m_half, N_m_half_p2, N_m_half_p3}
-NumDocs == {VNum(n) : n \in PNums} \cup {VObj(<< <<KA, VNum(n)>> >>) : n \in PNums} \cup {VObj(<< <<KB, N1>>, <<KA, VObj(<< <<KB, VNum(n)>> >>)>> >>) : n \in {N_one, N_one_eps, N_one_2eps, N_m_half, N_m_half_p3}}
+NumDocs == {VArr(<<VTrue, VNull, VFalse>>), VObj(<< <<KA, VTrue>>, <<KB, VNull>> >>), VObj(<< <<KA, VFalse>>, <<KB, VNull>> >>)} \cup {VNum(n) : n \in PNums} \cup {VObj(<< <<KA, VNum(n)>> >>) : n \in PNums} \cup {VObj(<< <<KB, N1>>, <<KA, VObj(<< <<KB, VNum(n)>> >>)>> >>) : n \in {N_one, N_one_eps, N_one_2eps, N_m_half, N_m_half_p3}}
 PairUniverse0 == IF Tier = "quick" THEN PLeaf \cup ArrsOver({N1, N2}, 2) \cup ObjsOver({N1, N2}, {KA, KAA, KSL}, 2, TRUE) \cup NestedUnsorted
                                        \cup {VObj(<< <<KB, N1>>, <<KA, N2>>, <<KAA, N1>> >>), VObj(<< <<KA, N1>>, <<KTI, N2>>, <<KB, N1>> >>)}
                 ELSE PLeaf \cup ArrsOver({N1, N2}, 2) \cup ObjsOver({N1, N2}, PKeys, 2, TRUE) \cup NestedUnsorted
